@@ -49,6 +49,18 @@ def execute(op):
             days = list(D.iter_months_days(*op["args"], **op.get("kw", {})))
             return [len(days), _jsonable(days[:2]), _jsonable(days[-2:]),
                     sum(m * 31 + d for m, d in days)]
+        if kind == "month_table":
+            y = op["y"]
+            lens = [D.get_days_in_month(mo, y) for mo in range(1, 13)]
+            accepted = []
+            for mo in (2, 4, 12):
+                for d in (28, 29, 30, 31):
+                    try:
+                        _tp(D, {"year": y, "month_of_year": mo, "day_of_month": d})
+                        accepted.append([mo, d])
+                    except ValueError:
+                        pass
+            return [lens, D.get_days_in_year(y), accepted]
         if kind == "add":
             p = _tp(D, op["p"])
             return str(p + D.Duration(**op["d"]))
